@@ -104,6 +104,20 @@ func whoisFor(r HReq) (resp *apitype.WhoIsResponse, err error, effective []model
 	case "user":
 		prof.LoginName = "alice@example.com"
 		caps[capPlain] = rawRules(r.Rules)
+	case "tagged-with-login":
+		// what tailscaled reports for a tagged device: tags AND the placeholder login name
+		node.Tags = []string{"tag:prod", "tag:web"}
+		prof.LoginName = "tagged-devices"
+		caps[capPlain] = rawRules(r.Rules)
+	case "malformed-mixed":
+		// one value of the grant list is not a rule: the grant as a whole cannot be parsed
+		prof.LoginName = "alice@example.com"
+		caps[capPlain] = append(rawRules(append([]model.Rule{{Action: []string{"get", "info", "put", "activate", "delete"}, Secret: []string{"*"}}}, r.Rules...)), `{"action":"get","secret":7}`)
+		identified = false
+	case "malformed-mixed-https":
+		prof.LoginName = "alice@example.com"
+		caps[capHTTPS] = append([]tailcfg.RawMessage{`{"action":["get"],"secret":"a"}`}, rawRules(append([]model.Rule{{Action: []string{"get", "info", "put", "activate", "delete"}, Secret: []string{"*"}}}, r.Rules...))...)
+		identified = false
 	case "anon":
 		caps[capPlain] = rawRules(r.Rules)
 		identified = false
@@ -501,6 +515,18 @@ func runC08(t *testing.T, c HTTPCase) (*h.Violation, h.Info) {
 
 var c08Names = []string{"a", "b", "dev/a", "a\nb", "", "_internal/x", "a", "zz"}
 
+// sameQuestionByAnother lets some requests repeat the question of the request before them (endpoint,
+// name, version, conditional flag) under their OWN identity and grant - two peers polling the same secret.
+func sameQuestionByAnother(rt *rapid.T, reqs []HReq) []HReq {
+	for i := 1; i < len(reqs); i++ {
+		if rapid.IntRange(0, 3).Draw(rt, "same-question") == 0 {
+			p := reqs[i-1]
+			reqs[i].Endpoint, reqs[i].Name, reqs[i].VSel, reqs[i].VArg, reqs[i].IfChg = p.Endpoint, p.Name, p.VSel, p.VArg, p.IfChg
+		}
+	}
+	return reqs
+}
+
 func genHReq(rt *rapid.T) HReq {
 	r := HReq{Method: "POST", CT: "application/json", Hdr: "setec", Addr: "known", BodyKind: "valid"}
 	r.Endpoint = rapid.SampledFrom([]string{"list", "get", "get", "get", "info", "put", "put", "activate", "delete-version", "delete"}).Draw(rt, "endpoint")
@@ -511,7 +537,7 @@ func genHReq(rt *rapid.T) HReq {
 	if r.Endpoint == "put" {
 		r.Val = rapid.SampledFrom([][]byte{{}, []byte("x"), []byte("SECRET-MARKER-VALUE-1"), []byte("other-marker-\x00\xff-2")}).Draw(rt, "val")
 	}
-	r.Who = rapid.SampledFrom([]string{"tagged", "user", "tagged", "user", "https-cap", "both-caps", "plain-empty"}).Draw(rt, "who")
+	r.Who = rapid.SampledFrom([]string{"tagged", "user", "tagged", "user", "tagged-with-login", "https-cap", "both-caps", "plain-empty"}).Draw(rt, "who")
 	genRules := func(label string) []model.Rule {
 		switch rapid.IntRange(0, 3).Draw(rt, label) {
 		case 0:
@@ -538,7 +564,11 @@ func genHReq(rt *rapid.T) HReq {
 		case "hdr":
 			r.Hdr = rapid.SampledFrom([]string{"-", "", "1", "setecx", "true"}).Draw(rt, "hdr")
 		case "identity":
-			switch rapid.IntRange(0, 5).Draw(rt, "idkind") {
+			switch rapid.IntRange(0, 7).Draw(rt, "idkind") {
+			case 6:
+				r.Who = "malformed-mixed"
+			case 7:
+				r.Who = "malformed-mixed-https"
 			case 0:
 				r.Addr = "unknown"
 			case 1:
@@ -566,7 +596,7 @@ func genHReq(rt *rapid.T) HReq {
 
 var c08 = &h.Campaign[HTTPCase]{
 	Prop: "C08", Sub: "frontdoor",
-	Rule: "rapid: a superuser pre-history, then 1-12 requests built by class (construction, not rejection): method, Content-Type, browser header, endpoint (all seven), body class (valid, valid with lower-case/extra fields, null, truncated at a generated offset, wrong JSON type, bad base64, version out of range, non-JSON, empty), source address (known, unknown, unparsable), WhoIs answer (tagged, user, anonymous, error, rules under the plain cap / the https:// cap / both / plain cap present but empty, malformed grants), with 0-3 gates broken per request; rejected => non-2xx, no audit record, dump unchanged; accepted => status and JSON body from the ACL+map model under exactly the effective rules, recorded principal = identity; no non-200 body contains stored values; non-trivial = request rejected by exactly one gate, or accepted with a status other than 200; distinct by scenario",
+	Rule: "rapid: a superuser pre-history, then 1-12 requests built by class (construction, not rejection): method, Content-Type, browser header, endpoint (all seven), body class (valid, valid with lower-case/extra fields, null, truncated at a generated offset, wrong JSON type, bad base64, version out of range, non-JSON, empty), source address (known, unknown, unparsable), WhoIs answer (tagged, tagged with the placeholder login name, user, anonymous, error, a grant list that mixes valid rules with a non-rule, rules under the plain cap / the https:// cap / both / plain cap present but empty, malformed grants), with 0-3 gates broken per request; rejected => non-2xx, no audit record, dump unchanged; accepted => status and JSON body from the ACL+map model under exactly the effective rules, recorded principal = identity; no non-200 body contains stored values; non-trivial = request rejected by exactly one gate, or accepted with a status other than 200; distinct by scenario",
 	Quick: 3000, Thorough: 600000,
 	Gen: func(rt *rapid.T) HTTPCase {
 		return HTTPCase{
@@ -577,7 +607,7 @@ var c08 = &h.Campaign[HTTPCase]{
 				}
 				return o
 			}), h.LenBias(rt, 0, 10), 10).Draw(rt, "pre"),
-			Reqs: rapid.SliceOfN(rapid.Custom(genHReq), 1, 12).Draw(rt, "reqs"),
+			Reqs: sameQuestionByAnother(rt, rapid.SliceOfN(rapid.Custom(genHReq), 1, 12).Draw(rt, "reqs")),
 		}
 	},
 	Run: runC08,
